@@ -80,7 +80,10 @@ pub fn make_binst(r: &mut StdRng, variant: usize) -> BInst {
         keys.insert(k.to_string(), k.to_string());
     }
     // custom keys: plain, unicode, with escapes, long
-    let customs: [(&str, &str); 8] = [
+    let customs: [(&str, &str); 11] = [
+        (" lead", "trail "),
+        ("\tboth\n", "\u{a0}nbsp"),
+        ("id", "id\n"),
         ("custom-a", "custom-b"),
         ("a/b", "x~0y"),
         ("https://example.com/roles", "~1"),
@@ -137,7 +140,7 @@ pub fn make_binst(r: &mut StdRng, variant: usize) -> BInst {
         vals,
         footer: foots[variant % foots.len()].to_string(),
         assertion: format!("assert-{}", variant),
-        via: if variant % 2 == 0 { Via::Typed } else { Via::Any },
+        via: if (variant / 3) % 2 == 0 { Via::Typed } else { Via::Any },
     }
 }
 
